@@ -72,7 +72,7 @@ def frameMutationQubits (body : List Instr) : Bool :=
         && l.any (fun q => match q with | .var _ => false | _ => true)
     | _ => false
 
-def handle (inp out : Sexp) : CaseResult :=
+def handleOne (inp out : Sexp) : CaseResult :=
   match inp with
   | .list [.atom "resolve", .atom ms, bs, tms, qms] =>
     match decMode ms, decBody bs, decTmap tms, decQmap qms with
@@ -121,6 +121,84 @@ def handle (inp out : Sexp) : CaseResult :=
           tags := tags, detail := s!"model={mOut} impl={out}" }
     | _, _, _, _ => .bad s!"undecodable input {inp}"
   | _ => .bad s!"undecodable input {inp}"
+
+def decCall : Sexp → Option Call
+  | .list [.atom "call", .atom ms, tms, qms] => do
+      some ⟨← decMode ms, ← decTmap tms, ← decQmap qms⟩
+  | _ => none
+
+def decQubits (tag : String) : Sexp → Option (List Qubit)
+  | .list (.atom t :: qs) => if t == tag then qs.mapM decQubit else none
+  | _ => none
+
+def decStep : Sexp → Option (List Instr × List Qubit)
+  | .list [.atom "step", b, u] => do some (← decBody b, ← decQubits "used" u)
+  | _ => none
+
+/-- canonical form of a qubit set: encoded, sorted, duplicates removed -/
+def canonQubits (l : List Qubit) : List String :=
+  let sorted := (l.map (fun q => toString (encQubit q))).mergeSort (fun a b => decide (a ≤ b))
+  sorted.foldr (fun x acc => match acc with | y :: _ => if x == y then acc else x :: acc | [] => [x]) []
+
+/-- Sequences of calls: the body after every call is compared with the iterated model, `stepSpecB` is
+evaluated on the implementation's consecutive bodies, and the `used_qubits` cache after every call must
+be the qubits of the listing (definitions + ALL qubits of the body as it stands). -/
+def handleSeq (inp out : Sexp) : CaseResult :=
+  match inp with
+  | .list [.atom "seq", dqs, bs, .list (.atom "calls" :: cs)] =>
+    match decQubits "defq" dqs, decBody bs, cs.mapM decCall with
+    | some defq, some body, some calls =>
+      match out with
+      | .list (.atom "seqout" :: u0 :: steps) =>
+        match decQubits "used" u0, steps.mapM decStep with
+        | some used0, some isteps =>
+          let wp := wellProjectedB body
+          let ibodies := isteps.map (·.1)
+          let m := resolveSeq calls body
+          let agreeBodies := m == some ibodies
+          -- model of the cache: initial = add_instruction's extension, then rebuilt after every call
+          let mUsed := match m with
+            | some outs => (body :: outs).map (fun b => canonQubits (usedQubitsOf defq b))
+            | none => []
+          let iUsed := canonQubits used0 :: isteps.map (fun st => canonQubits st.2)
+          let agreeUsed := mUsed == iUsed
+          -- spec on the implementation's outputs
+          let spec := seqSpecB calls body ibodies
+          -- cache = qubits of the listing (all qubits, harness traversal) after each call
+          let cacheOk := (canonQubits used0 == canonQubits (defq ++ body.flatMap Instr.allQubits)) &&
+            isteps.all (fun st => canonQubits st.2 == canonQubits (defq ++ st.1.flatMap Instr.allQubits))
+          let noFixed := (body.flatMap Instr.allQubits).all (fun q => match q with | .fixed _ => false | _ => true)
+          let defFixed := defq.any (fun q => match q with | .fixed _ => true | _ => false)
+          let modes := "+".intercalate (calls.map (fun c => match c.mode with
+            | .default => "d" | .custom => "c" | .customTargets => "ct" | .customQubits => "cq"))
+          let partialThenDefault : Bool := match calls with
+            | c1 :: rest => (c1.mode == .custom || c1.mode == .customQubits) && rest.any (fun c => c.mode == .default || c.mode == .customTargets) &&
+                (qubitPlaceholders body).any (fun k => (lookupN k c1.qmap).isNone) &&
+                (qubitPlaceholders body).any (fun k => (lookupN k c1.qmap).isSome)
+            | [] => false
+          let tags := ["seq", s!"calls-{modes}", s!"len{min body.length 14}",
+              (if noFixed then "body-no-fixed-qubits" else "body-has-fixed-qubits"),
+              (if defFixed then "defs-have-fixed-qubits" else "defs-no-fixed-qubits"),
+              (if partialThenDefault then "partial-custom-then-default" else "other-sequence")]
+            ++ (if !agreeBodies then ["BODY-DISAGREE"] else [])
+            ++ (if !agreeUsed then ["USED-CACHE-DISAGREE"] else [])
+            ++ (if !spec then ["STEP-SPEC-FAIL"] else [])
+            ++ (if !cacheOk then ["CACHE-NOT-LISTING"] else [])
+            ++ (if !wp then ["PROJECTION-NOT-WELL-FORMED"] else [])
+          { agree := agreeBodies && agreeUsed && wp, specOk := spec && cacheOk,
+            nontrivial := (qubitPlaceholders body).length + (targetPlaceholders (getTargets body)).length > 0,
+            tags := tags,
+            detail := s!"model={repr m} modelUsed={mUsed} impl={out}" }
+        | _, _ => .bad s!"undecodable output {out}"
+      | _ => { agree := false, specOk := false, nontrivial := false, tags := ["impl-output-undecodable"],
+               detail := s!"impl={out}" }
+    | _, _, _ => .bad s!"undecodable input {inp}"
+  | _ => .bad s!"undecodable input {inp}"
+
+def handle (inp out : Sexp) : CaseResult :=
+  match inp with
+  | .list (.atom "seq" :: _) => handleSeq inp out
+  | _ => handleOne inp out
 
 end QV.C34
 
